@@ -1,5 +1,5 @@
 (* Cases.v — concrete instances used when the models are *run* (correspondence), never in theorems. *)
-From Beff Require Export Model.Validate Model.Parse Model.Report Model.Hash256Enc.
+From Beff Require Export Model.Validate Model.Parse Model.Report Model.Hash256Enc Model.Bdd Model.SemType.
 
 Fixpoint str_len (s : string) : nat := match s with EmptyString => 0 | String _ s' => S (str_len s') end.
 
@@ -45,3 +45,16 @@ Definition run_hash32 (env : renv) (r : rt) : string :=
   show_res Z_to_string (hash32 env FUEL [] r).
 Definition run_writer (writes : list (list N)) : string :=
   writer_hex writes +++ "|" +++ sha256_hex (List.concat writes).
+
+(* ---------- decision diagrams ---------- *)
+Definition BFUEL : nat := 400.
+(* all truth assignments over a list of atoms *)
+Fixpoint assignments (atoms : list atom) : list (atom -> bool) :=
+  match atoms with
+  | [] => [fun _ => false]
+  | a :: rest => List.concat (map (fun rho => [rho; fun x => if atom_eqb x a then true else rho x]) (assignments rest))
+  end.
+Definition truth_table (atoms : list atom) (b : bdd) : string :=
+  concat_str "" (map (fun rho => show_bool (eval rho b)) (assignments atoms)).
+Definition truth_table_dnf (atoms : list atom) (d : dnf) : string :=
+  concat_str "" (map (fun rho => show_bool (eval_dnf rho d)) (assignments atoms)).
